@@ -100,7 +100,14 @@ class BaseExtractor:
         """
         tables = []
         if segment.type in ["from_clause", "join_clause", "update_statement"]:
-            if len(from_expressions := segment.get_children("from_expression")) > 1:
+            from_expressions = segment.get_children("from_expression")
+            # redshift has a parenthesised comma item as bracketed > from_expression
+            from_expressions += [
+                from_expression
+                for bracketed in segment.get_children("bracketed")
+                if (from_expression := bracketed.get_child("from_expression"))
+            ]
+            if len(from_expressions) > 1:
                 # SQL89 style of join
                 for from_expression in from_expressions:
                     if from_expression_element := find_from_expression_element(
